@@ -49,7 +49,8 @@ def main():
     results = []; broken = []; violations = []; known_hits = []
     def work(q):
         try:
-            return q, engine.run_query(q, a.tier, seed, scratch_root, hook_available=hook, keep=a.keep), None
+            isk = lambda desc, q=q: any(k['query'].search(q.name) and k['match'].search(desc) for k in known)
+            return q, engine.run_query(q, a.tier, seed, scratch_root, hook_available=hook, keep=a.keep, is_known=isk), None
         except Broken as e:
             return q, None, str(e)
         except Exception as e:
